@@ -188,3 +188,24 @@ void _ZN7QStringC1E14QStringDataPtr(char *self, char *ptr) { _ZN7QStringC2E14QSt
 void _ZN7QStringC2Ev(char *self) { *(QAD**)self = C02_EMPTY; }
 void _ZN7QStringC1Ev(char *self) { *(QAD**)self = C02_EMPTY; }
 uint8_t _ZNK7QString6isNullEv(char *self) { QAD *d = *(QAD**)self; return d == C02_EMPTY || d == SHARED_NULL; }
+/* std::vector<QString>::_M_realloc_insert (libstdc++, inline): the growth path of push_back/emplace_back. The real one allocates n*8 untyped bytes
+   and relocates the elements through them, which loses the identity of the QString d-pointers for symex (every later string operation then
+   sees an unknown object). Model: ONE typed pointer array of fixed capacity at the first growth (later push_backs take the real inline fast path
+   `end != end_of_storage`); elements are relocated bitwise (QString is trivially relocatable), the new element is move-/copy-constructed. */
+#ifndef C02_VECCAP
+#define C02_VECCAP 8
+#endif
+static void c02_vec_grow(char *self, char *pos, char *arg, int move) { char **v = (char**)self; char **ob = (char**)v[0], **oe = (char**)v[1]; uint64_t n = (ob == oe) ? 0 : (uint64_t)(oe - ob);
+  ASSERT(n < C02_VECCAP, "C02 env: std::vector<QString> capacity of the model exceeded"); ASSERT((char**)pos == oe, "C02 env: only insertion at the end of a vector is modelled");
+  char **nb = malloc(sizeof(char*) * C02_VECCAP); ASSUME(nb != 0);
+  for (uint32_t i = 0; i < C02_VECCAP; i++) nb[i] = (char*)C02_EMPTY;   /* unused slots: a definite valid string (reads on infeasible iterations must not yield an unknown object) */
+  for (uint32_t i = 0; i < C02_VECCAP; i++) { if (i >= n) break; nb[i] = ob[i]; }
+  nb[n] = *(char**)arg; if (move) *(char**)arg = (char*)C02_EMPTY;
+  v[0] = (char*)nb; v[1] = (char*)(nb + n + 1); v[2] = (char*)(nb + C02_VECCAP); }
+void _ZNSt6vectorI7QStringSaIS0_EE17_M_realloc_insertIJS0_EEEvN9__gnu_cxx17__normal_iteratorIPS0_S2_EEDpOT_(char *self, char *pos, char *arg) { c02_vec_grow(self, pos, arg, 1); }
+void _ZNSt6vectorI7QStringSaIS0_EE17_M_realloc_insertIJRKS0_EEEvN9__gnu_cxx17__normal_iteratorIPS0_S2_EEDpOT_(char *self, char *pos, char *arg) { c02_vec_grow(self, pos, arg, 0); }
+/* std::vector<QString>::vector() (inline): storage of the fixed capacity from the start, so that begin() is never a NULL alternative */
+static void c02_vec_init(char *self) { char **v = (char**)self; char **nb = malloc(sizeof(char*) * C02_VECCAP); ASSUME(nb != 0); for (uint32_t i = 0; i < C02_VECCAP; i++) nb[i] = (char*)C02_EMPTY;
+  v[0] = (char*)nb; v[1] = (char*)nb; v[2] = (char*)(nb + C02_VECCAP); }
+void _ZNSt6vectorI7QStringSaIS0_EEC2Ev(char *self) { c02_vec_init(self); }
+void _ZNSt6vectorI7QStringSaIS0_EEC1Ev(char *self) { c02_vec_init(self); }
